@@ -67,6 +67,9 @@ func corsConfigs() []corsCfg {
 		}
 	}
 	out = append(out, corsCfg{Origins: []string{"https://a"}, MaxAge: -2})
+	// an origin that contains '*' without being "*": an ordinary list entry (never matched by a browser's Origin)
+	out = append(out, corsCfg{Origins: []string{"https://*.a", "https://a"}, Headers: []string{"Content-Type"}},
+		corsCfg{Origins: []string{"https://*.a"}, Cred: true})
 	// lists that are not sorted and contain a duplicate: whatever normalisation mux does must not be visible
 	out = append(out, corsCfg{Origins: []string{"https://b", "https://a"}, Headers: []string{"X-Tok", "Content-Type"}, Exposed: []string{"X-F", "X-E"}, MaxAge: 600, Cred: true},
 		corsCfg{Origins: []string{"https://b", "https://a", "https://b"}, Headers: []string{"X-Tok", "Content-Type", "X-Tok"}, MaxAge: 600},
@@ -179,7 +182,7 @@ func corsRequests(hostile bool, c corsCfg) []corsReq {
 		addH(named[len(named)-1] + "," + named[0])
 	}
 	for _, m := range []string{"GET", "HEAD", "POST", "PUT", "OPTIONS", "TRACE", "", "BOGUS"} { // "" and BOGUS: served by no route, always 405/404
-		for _, p := range []string{"/r", "/w", "/p", "/none", "*"} {
+		for _, p := range []string{"/r", "/w", "/p", "/none", "*", "" /* absolute-form target without a path */} {
 			for _, o := range origins {
 				for _, am := range []string{"", "GET", "POST", "PUT", "get", "HEAD", "OPTIONS", "DELETE"} {
 					for _, ah := range acrhs {
